@@ -51,7 +51,8 @@ import (
 func main() {
 	fw.Main(fw.Check{
 		ID: "C04", Level: "model_checking",
-		Rule: "every valid history (RevertToSnapshot only to live ids, <=3 live snapshots, SubRefund never below zero) up to the slice's depth over the slice's alphabet is executed on a fresh real AccountDB; " +
+		Rule: "every valid history (RevertToSnapshot only to live ids, <=3 live snapshots, SubRefund never below zero) up to the slice's depth over the slice's alphabet is executed on a fresh real AccountDB, " +
+			"except revert-free histories that cannot be extended to one with a revert within the depth bound (they say nothing about the property); " +
 			"distinct = distinct histories (each enumerated once); non-trivial = the history contains at least one RevertToSnapshot that undid at least one journal entry; " +
 			"states = distinct (implementation dump incl. journal entries and snapshot ids, model state incl. copy stack)",
 		Assumptions: []string{
@@ -65,7 +66,7 @@ func main() {
 			if tier == "thorough" {
 				return 17 * time.Minute
 			}
-			return 62 * time.Second
+			return 50 * time.Second
 		},
 	})
 }
@@ -146,8 +147,8 @@ type slice struct {
 	frontier []item
 	done     int // deepest level completely evaluated
 	okeys    []string
-	memo  map[string]*refRes
-	c     *fw.Ctx
+	memo     map[string]*refRes
+	c        *fw.Ctx
 }
 
 func (s *slice) init(c *fw.Ctx) {
@@ -222,13 +223,13 @@ func buildSlices(thorough bool, gen, com, warm *universe) []*slice {
 	// one address at a time, the core letters of every journal-entry kind, deep
 	for _, u := range us {
 		for a := 0; a < 3; a++ {
-			add("core-"+u.short[a], u, d(5, 6), false, cat(coreOps(a), ctlOps()))
+			add("core-"+u.short[a], u, d(6, 7), false, cat(coreOps(a), ctlOps()))
 		}
 	}
 	// refund, logs, access list, transient storage, interleaved with a few account letters
 	for _, u := range us {
 		y := []Op{{K: kSetNonce, A: 0, V: 7}, {K: kSetData, A: 1, S: 1, V: 1}, {K: kSuicide, A: 1}}
-		add("side", u, d(4, 5), false, cat(sideOps(), y, ctlOps()))
+		add("side", u, d(5, 6), false, cat(sideOps(), y, ctlOps()))
 	}
 	// one address at a time, all account letters (second values, GetCommittedState, balance
 	// arithmetic, transfers with a neighbour)
@@ -236,7 +237,7 @@ func buildSlices(thorough bool, gen, com, warm *universe) []*slice {
 		for a := 0; a < 3; a++ {
 			b := (a + 1) % 3
 			x := []Op{{K: kAddBalance, A: b, V: 5}, {K: kTransfer, A: a, B: b, V: 4}, {K: kTransfer, A: b, B: a, V: 4}}
-			add("account-"+u.short[a], u, d(4, 5), false, cat(acctOps(a, true), x, ctlOps()))
+			add("account-"+u.short[a], u, d(5, 6), false, cat(acctOps(a, true), x, ctlOps()))
 		}
 	}
 	// two addresses at a time, core letters and transfers between them
@@ -244,34 +245,34 @@ func buildSlices(thorough bool, gen, com, warm *universe) []*slice {
 		for a := 0; a < 3; a++ {
 			b := (a + 1) % 3
 			x := []Op{{K: kTransfer, A: a, B: b, V: 4}, {K: kTransfer, A: b, B: a, V: 4}}
-			add("pair-"+u.short[a]+u.short[b], u, d(4, 5), false, cat(coreOps(a), coreOps(b), x, ctlOps()))
+			add("pair-"+u.short[a]+u.short[b], u, d(5, 6), false, cat(coreOps(a), coreOps(b), x, ctlOps()))
 		}
 	}
 	// every account-level letter on all three addresses plus cross-address transfers
 	for _, u := range us {
 		tr := []Op{{K: kTransfer, A: 1, B: 0, V: 4}, {K: kTransfer, A: 0, B: 1, V: 4}, {K: kTransfer, A: 1, B: 2, V: 4}, {K: kTransfer, A: 2, B: 1, V: 4}}
-		add("accounts3", u, d(3, 4), false, cat(acctOps(0, false), acctOps(1, false), acctOps(2, false), tr, ctlOps()))
+		add("accounts3", u, d(4, 5), false, cat(acctOps(0, false), acctOps(1, false), acctOps(2, false), tr, ctlOps()))
 	}
 	if thorough {
 		// exported FT mutators on a token name without binding (account's own storage, touch())
 		for _, u := range us {
 			for a := 0; a < 3; a++ {
 				y := []Op{{K: kSetNonce, A: a, V: 7}, {K: kSetData, A: a, S: 1, V: 1}, {K: kSetCode, A: a, V: 1}, {K: kSuicide, A: a}, {K: kCreate, A: a}, {K: kAddBalance, A: a, V: 5}}
-				dep := 5
+				dep := 6
 				if u == gen {
-					dep = 4
+					dep = 5
 				}
 				add("ft-"+u.short[a], u, dep, true, cat(ftOps(a), y, ctlOps()))
 			}
 		}
 		// the committing AccountDB object itself as start state
 		for a := 0; a < 3; a++ {
-			add("core-"+warm.short[a], warm, 4, false, cat(coreOps(a), ctlOps()))
+			add("core-"+warm.short[a], warm, 5, false, cat(coreOps(a), ctlOps()))
 		}
-		// few letters, depth 7 (nesting 3 needs at least 3 snapshots + 3 reverts)
+		// few letters, depth 8 (nesting 3 needs at least 3 snapshots + 3 reverts)
 		for _, u := range us {
 			for a := 0; a < 3; a++ {
-				add("deep-"+u.short[a], u, 7, false, cat(deepOps(a), ctlOps()))
+				add("deep-"+u.short[a], u, 8, false, cat(deepOps(a), ctlOps()))
 			}
 		}
 	}
@@ -721,6 +722,7 @@ type bfs struct {
 	s       *slice
 	c       *fw.Ctx
 	visited map[[16]byte]struct{}
+	top     map[[16]byte]struct{}
 	n       int64
 	stop    bool
 	sampled int
@@ -744,13 +746,17 @@ func (b *bfs) visit(idx []byte, own bool) *model {
 	if res == nil {
 		return nil
 	}
-	_, dup := b.visited[res.key]
-	b.visited[res.key] = struct{}{}
-	if tr := os.Getenv("C04_TRACE"); tr != "" && strings.Join(histStr(s.u, h), " ") == tr {
-		f, _ := os.OpenFile("/tmp/c04-trace.log", os.O_APPEND|os.O_CREATE|os.O_WRONLY, 0o644)
-		fmt.Fprintf(f, "shard=%d slice=%s own=%v dup=%v fails=%v\n", c.Shard, s.name, own, dup, res.fails)
-		f.Close()
+	// Levels 0 and 1 are walked by every worker and decide the numbering of the shards, so
+	// their expansion must not depend on what this worker alone has seen: they are
+	// de-duplicated against levels 0..1 only.
+	var dup bool
+	if len(idx) <= 1 {
+		_, dup = b.top[res.key]
+		b.top[res.key] = struct{}{}
+	} else {
+		_, dup = b.visited[res.key]
 	}
+	b.visited[res.key] = struct{}{}
 	if own {
 		c.Eval(1)
 		c.Transition(1)
@@ -787,7 +793,7 @@ func (b *bfs) visit(idx []byte, own bool) *model {
 		}
 	}
 	b.n++
-	if b.n%128 == 0 && c.Expired() {
+	if b.n%32 == 0 && c.Expired() {
 		b.stop = true
 	}
 	if len(res.fails) > 0 || dup || len(idx) >= s.depth {
@@ -797,12 +803,30 @@ func (b *bfs) visit(idx []byte, own bool) *model {
 }
 
 func (b *bfs) children(idx []byte, m *model, f func(child []byte)) {
+	hasRevert := false
+	for _, x := range idx {
+		hasRevert = hasRevert || b.s.ops[x].K == kRevert
+	}
+	remaining := b.s.depth - (len(idx) + 1) // calls that can still follow the child
 	for i, o := range b.s.ops {
 		if b.stop {
 			return
 		}
 		if !m.enabled(o, 3) {
 			continue
+		}
+		// A history says something about the property only once it contains a revert.  A child
+		// that has none and cannot get one within the depth bound (needs Snapshot + Revert, or
+		// one Revert if a snapshot is live) is skipped: nothing below it could be checked.
+		if !hasRevert && o.K != kRevert {
+			live := len(m.snaps)
+			if o.K == kSnapshot {
+				live++
+			}
+			if remaining < 1 || (live == 0 && remaining < 2) {
+				b.c.Count("revert_free_leaves_skipped", 1)
+				continue
+			}
 		}
 		ch := make([]byte, len(idx)+1)
 		copy(ch, idx)
@@ -820,7 +844,7 @@ type item struct {
 // to generate the shards) and counted by one; the level-2 subtrees are the shards.
 func (s *slice) start(c *fw.Ctx, caseIdx *int64) {
 	s.init(c)
-	b := &bfs{s: s, c: c, visited: map[[16]byte]struct{}{}, fwdNoted: map[string]bool{}}
+	b := &bfs{s: s, c: c, visited: map[[16]byte]struct{}{}, top: map[[16]byte]struct{}{}, fwdNoted: map[string]bool{}}
 	s.b = b
 	mine := func() bool { v := c.Mine(*caseIdx); *caseIdx++; return v }
 	if m := b.visit(nil, mine()); m != nil && s.depth >= 1 {
@@ -830,9 +854,11 @@ func (s *slice) start(c *fw.Ctx, caseIdx *int64) {
 				return
 			}
 			b.children(l1, m1, func(l2 []byte) {
+				c.Count("level2_shards_enumerated_summed_over_workers", 1)
 				if !mine() {
 					return
 				}
+				c.Count("level2_shards_owned", 1)
 				if m2 := b.visit(l2, true); m2 != nil {
 					s.frontier = append(s.frontier, item{l2, m2})
 				}
